@@ -24,7 +24,7 @@ def generate(seed, tier):
     names, style = gen_filter(rng, None, user=0.15)
     faulty = rng.random() < 0.6
     ops = gen_dispatch_ops(
-        rng, n_ops(spec), p_fork=0.03 if rng.random() < 0.3 else 0.0,
+        rng, n_ops(spec), p_fork=0.03 if rng.random() < 0.3 else 0.0, p_solve_rest=0.03 if rng.random() < 0.4 else 0.0,
         p_query=0.12 if faulty else 0.05,
         p_invalid=0.15 if faulty else 0.0,
         p_reset=0.04 if faulty else 0.0,
